@@ -99,19 +99,39 @@ func (*PCT) Name() string { return "pct" }
 
 // Starve never runs a victim while anything else can run: the stalled-node
 // fault. Among the rest it delegates to Inner.
+//
+// With Leak > 0 the victim is let through once in Leak steps on average (a node
+// that is slow, not stopped): it lags behind, and catches up at arbitrary moments.
 type Starve struct {
 	Victim func(Label) bool
 	Inner  Policy
 	Desc   string
+	Leak   int
+	R      *RNG
+	// Trigger / TrigK: the victim is let through whenever some other goroutine is
+	// parked at the TrigK-th distinct code location (in order of first appearance)
+	// among the labels Trigger recognises: "the slow node catches up exactly when
+	// another goroutine is between two particular statements".
+	Trigger func(Label) (uint64, bool)
+	TrigK   int
+	seen    *[]uint64
+}
+
+// NewStarve returns a Starve policy with its mutable state allocated.
+func NewStarve(s Starve) Starve {
+	s.seen = &[]uint64{}
+	return s
 }
 
 func (p Starve) Choose(step int, e []Label, st *Stats) (int, bool) {
-	var idxs []int
-	var rest []Label
+	var idxs, vidx []int
+	var rest, vics []Label
 	victims := 0
 	for i, l := range e {
 		if p.Victim(l) {
 			victims++
+			vidx = append(vidx, i)
+			vics = append(vics, l)
 			continue
 		}
 		idxs = append(idxs, i)
@@ -119,6 +139,35 @@ func (p Starve) Choose(step int, e []Label, st *Stats) (int, bool) {
 	}
 	if len(rest) == 0 {
 		return p.Inner.Choose(step, e, st)
+	}
+	trig := false
+	if p.Trigger != nil && p.TrigK > 0 && p.seen != nil {
+		for _, l := range rest {
+			id, ok := p.Trigger(l)
+			if !ok {
+				continue
+			}
+			k := -1
+			for i, s := range *p.seen {
+				if s == id {
+					k = i
+				}
+			}
+			if k < 0 {
+				*p.seen = append(*p.seen, id)
+				k = len(*p.seen) - 1
+			}
+			if k == p.TrigK-1 {
+				trig = true
+			}
+		}
+	}
+	if victims > 0 && (trig || (p.Leak > 0 && p.R != nil && p.R.Intn(p.Leak) == 0)) {
+		j, d := p.Inner.Choose(step, vics, st)
+		if d || j < 0 || j >= len(vidx) {
+			return 0, true
+		}
+		return vidx[j], false
 	}
 	if victims > 0 {
 		st.StallSteps++
@@ -129,7 +178,12 @@ func (p Starve) Choose(step int, e []Label, st *Stats) (int, bool) {
 	}
 	return idxs[j], false
 }
-func (p Starve) Name() string { return "starve(" + p.Desc + ")" }
+func (p Starve) Name() string {
+	if p.Leak > 0 {
+		return "slow(" + p.Desc + ")"
+	}
+	return "starve(" + p.Desc + ")"
+}
 
 // Burst keeps running the class it ran last for as long as it can, then
 // switches to a random other one.
